@@ -385,6 +385,19 @@ def gen_c13(rng, n):
             elif kind == 3 and len(lp) >= 2:
                 i = rng.randrange(len(lp) - 1)
                 lp[i + 1][1] = lp[i][1] + rng.choice([0, 2, -2, 3])
+            elif kind == 4 and rng.random() < 0.5:
+                # the spacing rule at the top of the 64-bit range: the last two records end at (or just below) i64::MAX with a
+                # spacing just below, at and above the minimum (a saturating sum would accept all of them)
+                top = rng.choice([I64MAX, I64MAX, I64MAX - 1, I64MAX - 5])
+                gap = rng.choice([0, 1, 2419198, 2419198, 2419199, 2419200, 100])
+                c = lp[-2][1] if len(lp) >= 2 else 0
+                lp[:] = [rec for rec in lp[:-1] if rec[0] < top - gap - 2419199]
+                c = lp[-1][1] if lp else 0
+                step = 1 if (c >= 0 or not lp) else -1
+                lp.append([top - gap, c + step])
+                lp.append([top, c + step + rng.choice([1, -1])])
+                if len(lp) == 2 and lp[0][1] not in (1, -1):
+                    lp[0][1] = 1; lp[1][1] = rng.choice([0, 2])
             elif kind == 4:
                 lp[-1][0] = rng.choice([I64MAX, I64MAX - 1])
                 if rng.random() < 0.5 and len(lp) >= 2:
@@ -925,6 +938,21 @@ def gen_c11(rng, n):
         else:
             d = [k, rng.choice([0, 1, 365, 366, 367, 65535, rng.randint(0, 400)])]
         yield {"op": "ruleday", "a": {"d": d}}
+    yield from gen_hostile_rules(rng, max(60, n // 20))
+
+
+def gen_hostile_rules(rng, n):
+    """a whole rule around a day that is ONE step outside its range in one component (week 0 / 6, week day 7, month 0 / 13,
+    J0 / J366, zero-based 366), with a valid partner in the same or an adjacent month: must be refused, whatever comes after"""
+    for _ in range(n):
+        m = rng.randint(1, 12)
+        bad = rng.choice([["M", m, 0, rng.randint(0, 6)], ["M", m, 6, rng.randint(0, 6)], ["M", m, rng.randint(1, 5), 7], ["M", 0, rng.randint(1, 5), rng.randint(0, 6)],
+                          ["M", 13, rng.randint(1, 5), rng.randint(0, 6)], ["J", 0], ["J", 366], ["Z", 366], ["M", m, 0, 7]])
+        partner = rng.choice([["M", m, rng.randint(1, 5), rng.randint(0, 6)], ["M", m % 12 + 1, 1, rng.randint(0, 6)], ["J", rng.randint(1, 365)], ["Z", rng.randint(0, 365)], bad])
+        r = rand_rule(rng)
+        sd, ed = (bad, partner) if rng.random() < 0.5 else (partner, bad)
+        a = {"std": r["std"], "dst": r["dst"], "sd": sd, "st": rng.choice([0, 7200, -3600, r["st"]]), "ed": ed, "et": rng.choice([0, 7200, r["et"]])}
+        yield {"op": "rule", "a": a}
 
 
 # ---- C18 ----
@@ -957,7 +985,7 @@ def gen_render(rng, n):
 # ---- C09 ----
 TZ_NAMES = ["EST", "EDT", "CET", "CEST", "<-03>", "<+0530>", "<+14>", "ABCDEFG", "NZST", "AB", "ABCDEFGH", "<A B>", "<AB", "A1B", "<A1B>", "", "<>", "<->"]
 TZ_OFFS = ["5", "05", "+5", "-5", "5:30", "-0:30", "5:30:15", "24", "25", "24:59:59", "0", "-10", "+0", "-0", "5:60", "5:", "", "00005", "-24:59:59", "12:34:56", "1:2:3", "99999999999"]
-TZ_DAYS = ["M3.2.0", "M11.1.0", "M10.5.0", "M1.1.0", "M12.5.6", "J60", "J300", "J1", "J365", "59", "300", "0", "365", "J0", "J366", "366", "M13.1.0", "M3.6.0", "M3.2.7", "M3.2", "M0.1.0", "M2.5.3", ""]
+TZ_DAYS = ["M3.0.1", "M3.2.1", "M3.2.0", "M11.1.0", "M10.5.0", "M1.1.0", "M12.5.6", "J60", "J300", "J1", "J365", "59", "300", "0", "365", "J0", "J366", "366", "M13.1.0", "M3.6.0", "M3.2.7", "M3.2", "M0.1.0", "M2.5.3", ""]
 TZ_TIMES = ["", "/2", "/0", "/24", "/25", "/-1", "/+2", "/167", "/168", "/2:30", "/-0:30", "/24:59:59", "/", "/2:60", "/-167:59:59", "/02:00:00", "/26", "/3:00:00"]
 
 
@@ -1316,6 +1344,16 @@ def gen_hostile_strings(rng, n):
             s = bytes(s)
         for via in ("v2", "v3"):
             yield {"op": "tzstring", "a": {"s": list(s), "via": via}}
+    # rule days one step outside their range next to a valid day of the same month, as strings and as constructor arguments
+    for _ in range(max(40, n // 50)):
+        m = rng.randint(1, 12)
+        bad = rng.choice([f"M{m}.0.{rng.randint(0, 6)}", f"M{m}.6.{rng.randint(0, 6)}", f"M{m}.{rng.randint(1, 5)}.7", f"M0.1.0", f"M13.1.0", "J0", "J366", "366"])
+        good = rng.choice([f"M{m}.{rng.randint(1, 5)}.{rng.randint(0, 6)}", f"M{m % 12 + 1}.1.{rng.randint(0, 6)}", f"J{rng.randint(1, 365)}"])
+        a, b = (bad, good) if rng.random() < 0.5 else (good, bad)
+        s = f"AAA{rng.choice(['0', '5', '-3'])}BBB,{a}{rng.choice(['', '/2', '/-1'])},{b}".encode()
+        for via in ("v2", "v3"):
+            yield {"op": "tzstring", "a": {"s": list(s), "via": via}}
+    yield from gen_hostile_rules(rng, max(60, n // 40))
 
 
 def gen_hostile_numbers(rng, n):
